@@ -123,7 +123,19 @@ pub fn reduce_program(start: &Program, still: &mut dyn FnMut(&Program) -> bool, 
         while i > 0 && calls < budget {
             i -= 1;
             let mut cand = best.clone();
-            cand.helpers.remove(i);
+            let removed = cand.helpers.remove(i);
+            // a helper that is still mentioned stays: dropping it would make the program
+            // ill-scoped, and builds may differ in whether they notice (dead bindings)
+            let name = match &removed {
+                crate::gen_lisp::Helper::Defun { name, .. } => name.clone(),
+                crate::gen_lisp::Helper::Defmacro { name, .. } => name.clone(),
+                crate::gen_lisp::Helper::Defconstant { name, .. } => name.clone(),
+                crate::gen_lisp::Helper::Defconst { name, .. } => name.clone(),
+            };
+            let rest = crate::gen_lisp::render_program(&cand, None);
+            if crate::gen_text::tokenize(&rest).iter().any(|t| t == &name) {
+                continue;
+            }
             calls += 1;
             if still(&cand) {
                 best = cand;
